@@ -156,6 +156,7 @@ func run(o *options) int {
 				if is.Name != nil && is.Name.Name != "_" && is.Name.Name != "." {
 					g.aliases[p.PkgPath][is.Name.Name] = strings.Trim(is.Path.Value, "\"")
 				}
+				g.noteDirect(p.PkgPath, strings.Trim(is.Path.Value, "\""))
 			}
 		}
 	}
@@ -177,6 +178,7 @@ func run(o *options) int {
 					if is.Name != nil && is.Name.Name != "_" && is.Name.Name != "." {
 						g.aliases[pp][is.Name.Name] = strings.Trim(is.Path.Value, "\"")
 					}
+					g.noteDirect(pp, strings.Trim(is.Path.Value, "\""))
 				}
 			}
 		}
